@@ -496,7 +496,10 @@ def run(res, tier, seed):
     sh_pool = [dict(q) for q in queries if q['name'] in sh_names]
     for name, text, needs_b in (('star', 'select *', False), ('star-dcount', 'select distinct count *', False), ('star-distinct', 'select distinct *', False),
                                 ('join-star', 'select * join b on a1 == b1', True), ('join-bstar', 'select b.* left join b on a1 == b1', True),
-                                ('strict-join', 'select a1, b2 strict left join b on a2 == b1', True), ('update-join', 'update set a2 = b2 join b on a1 == b1', True)):
+                                ('strict-join', 'select a1, b2 strict left join b on a2 == b1', True), ('update-join', 'update set a2 = b2 join b on a1 == b1', True),
+                                # a join that FAILS while the join table is being read (no such key field), and one that is cut short by TOP: what they leave half-read
+                                # must not be what the next query starts from
+                                ('join-badkey', 'select a1 join b on a1 == b5', True), ('join-top', 'select top 1 a1, b2 join b on a1 == b1', True)):
         sh_pool.append({'name': name, 'text': text, 'table': table, 'btable': BTABLE if needs_b else None, 'abstract': None})
     with ThreadPoolExecutor(max_workers=common.NPROC) as ex:
         sh_solos = list(ex.map(lambda q: impl('solo', [q['text'], q['table'], q['btable'], q.get('header'), q.get('bheader'), q.get('init', '')]), sh_pool))
